@@ -8,7 +8,9 @@ POS = ["NN", "VVFIN", "ART", "ADJA", "APPR", "ADV", "NE", "VAFIN", "KON", "PPER"
 EDGES = ["HD", "NK", "SB", "OA", "MO", "--", "OC", "-", "CJ"]
 WORDS = ["der", "Hund", "bellt", "laut", "a", "b", "x<y", "R&D", "\"q\"", "it's", "(paren", "brk]",
          "straße", "été", "sevench", "eightchr", "fifteen_chars__", "sixteen_chars___",
-         "w1", "w2", "w3", "Haus", "groß", "1990", "A-B", "x=y"]
+         "w1", "w2", "w3", "Haus", "groß", "1990", "A-B", "x=y",
+         # text that spells an XML entity or character reference: it is data, not markup
+         "R&amp;D", "&lt;", "&#228;", "&amp;amp;", "&quot;x", "&#x41;"]
 PUNCT_WORDS = [",", ".", "\"", "'", "(", ")", "``", "''", ";", ":", "-", "--", "?", "!", "/", "...",
                "[", "]", "-LRB-", "-RRB-", "`", "{", "}"]
 PUNCT_POS = {",": "$,", ".": "$.", "\"": "$(", "(": "$(", ")": "$("}
